@@ -83,3 +83,20 @@ Section WithText.
   Definition related (o : op) (R : tset) (K : list ts) : list nat :=
     filter (keep o R K) (seq 0 (length K)).
 End WithText.
+
+(** * TextSelectionIterator::related_text: the search from an iterator of text selections *)
+(* every reference is asked on its own (ResultTextSelection::related_text), the answers are
+   gathered, sorted and adjacent duplicates dropped (sort_unstable_by + dedup) *)
+From Stam Require Import Model.Handles.
+
+Fixpoint dedup_adj (l : list nat) : list nat :=
+  match l with
+  | x :: ((y :: _) as r) => if Nat.eqb x y then dedup_adj r else x :: dedup_adj r
+  | _ => l
+  end.
+
+Definition gather (f : ts -> list nat) (refs : list ts) : list nat :=
+  dedup_adj (sort (flat_map f refs)).
+
+Definition search_each (ws : list bool) (o : op) (refs : list ts) (K : list ts) (len : nat) : list nat :=
+  gather (fun t => search ws o (mkset [t] false) K len) refs.
